@@ -5,7 +5,8 @@ Per-call time limits are 30 s: the code under test has no loops, the limit only 
 exception handler turned into a 500 response.)
 """
 PROP = 'C20'
-LEAN_MODULES = ['FalconModel.Cors', 'FalconModel.CorsProofs']
+LEAN_MODULES = ['FalconModel.Cors', 'FalconModel.CorsProofs', 'FalconModel.CorsConfig', 'FalconModel.CorsConfigProofs',
+                'FalconModel.Pipeline', 'FalconModel.PipelineProofs', 'FalconModel.PipelineSpec']
 DRIVERS = ['crdriver']
 THEOREMS = [
     # header-map algebra the policy proofs rest on
@@ -20,6 +21,25 @@ THEOREMS = [
     # the same first four statements for the pinned function, and the regression witness of F12
     'Co.no_origin_untouched', 'Co.disallowed_untouched', 'Co.credentials_only_configured', 'Co.credentials_imply_echo',
     'Co.f12_witness',
+    # --- Cg: CORSMiddleware.__init__ (normalise) -------------------------------------------------------------------------
+    'Cg.mem_frozenset', 'Cg.has_frozenset', 'Cg.normOrigins_str', 'Cg.normOrigins_iter', 'Cg.normOrigins_none',
+    'Cg.normCredentials_none', 'Cg.normCredentials_str', 'Cg.normCredentials_iter', 'Cg.normalise_eq', 'Cg.normalise_ok_iff',
+    'Cg.normalise_has', 'Cg.processF_congr', 'Cg.normalise_depends_only_on_set', 'Cg.policy_depends_only_on_set',
+    'Cg.normalise_order_irrelevant', 'Cg.normalise_duplicates_irrelevant', 'Cg.normalise_string_is_singleton',
+    'Cg.string_membership_is_equality', 'Cg.wildcard_in_iterable_rejected', 'Cg.normalise_error_iff',
+    'Cg.expose_join_exact', 'Cg.joinComma_toList', 'Cg.raw_expose_header_exact',
+    # the policy theorems restated from the RAW constructor arguments
+    'Cg.names_iff', 'Cg.origin_match_is_exact_equality', 'Cg.raw_changed_only_for_allowed_origin',
+    'Cg.raw_credentials_only_configured', 'Cg.raw_no_credentials_by_default', 'Cg.raw_credentials_imply_echo',
+    'Cg.raw_wildcard_never_with_credentials', 'Cg.raw_preflight_approved_iff', 'Cg.raw_wildcard_only_from_literal',
+    # --- Cg: cors_enable wiring (App.__init__ / add_middleware) and the CORS component inside App.__call__ (Pl.run) -------
+    'Cg.addMiddleware_eq', 'Cg.cors_enable_adds_exactly_one', 'Cg.no_cors_enable_verbatim', 'Cg.addMiddleware_keeps_one',
+    'Cg.cors_enable_invariant',
+    'Pl.run_eq_spec', 'Cg.run_response_phase', 'Cg.respOrder_decreasing', 'Cg.response_call_of_member',
+    'Cg.mem_respOrder_independent', 'Cg.reached_append', 'Cg.mem_respOrder_dependent', 'Cg.cors_response_exactly_once',
+    'Cg.cors_response_dependent_count', 'Cg.cors_process_response_independent', 'Cg.cors_process_response_dependent',
+    'Cg.cors_enable_process_response', 'Cg.req_succeeded_by_target', 'Cg.req_failed_in_middleware',
+    'Cg.req_failed_in_resource_middleware',
 ]
 STATEMENTS = {
     'Co.noOriginF_untouched': 'a request without Origin leaves the whole response header map unchanged, for every configuration, pre-existing headers and outcome',
@@ -35,6 +55,37 @@ STATEMENTS = {
     'Co.preflight_removes_allow': 'a successful preflight from an allowed origin never keeps its Allow header',
     'Co.denied_preflight_grants_nothing': 'a successful preflight from an allowed origin whose response advertises no Allow ends with none of the six grant headers, whatever the configuration and whatever the responder had set',
     'Co.f12_witness': 'the pre-repair function kept Access-Control-Allow-Credentials: true on a denied preflight (regression witness of F12, by decide)',
+    'Cg.normalise_has': 'if the constructor succeeds, membership in the normalised allow_origins / allow_credentials is exactly: the argument is the bare string "*", or is that very string, or is an iterable containing that very string; allow_origins is the wildcard iff the argument was the bare "*"; expose_headers is the string given or the ", "-join',
+    'Cg.normalise_string_is_singleton': 'for strings other than "*", passing a single string for allow_origins / allow_credentials yields the very same configuration as passing the one-element list',
+    'Cg.string_membership_is_equality': 'with single-string arguments s, t (not "*") an Origin o is allowed iff o = s and gets credentials iff o = t: whole-string equality, never a substring test',
+    'Cg.normalise_depends_only_on_set': 'two constructor calls whose allow_origins / allow_credentials iterables have the same members (any order, any repetitions) fail with the same error or give configurations that agree on every membership test, on wildcard-ness and on expose_headers',
+    'Cg.policy_depends_only_on_set': '... and then process_response computes the same header map for every request, pre-existing headers and outcome',
+    'Cg.normalise_order_irrelevant': 'permuting the allow_origins / allow_credentials iterables does not change the outcome (same error / policy-equivalent configuration)',
+    'Cg.normalise_duplicates_irrelevant': 'repeating an item of the allow_origins / allow_credentials iterables does not change the outcome',
+    'Cg.wildcard_in_iterable_rejected': 'an allow_origins iterable containing "*" makes the constructor fail (ValueError, origins); with acceptable allow_origins, an allow_credentials iterable containing "*" makes it fail (ValueError, credentials)',
+    'Cg.normalise_error_iff': 'the constructor fails iff allow_origins is None, or allow_origins / allow_credentials is a non-string iterable containing "*"',
+    'Cg.expose_join_exact': 'expose_headers is stored as None, as the string given, or as the items joined with ", " in iteration order',
+    'Cg.joinComma_toList': 'the characters of the joined value are the items\' characters with ", " between consecutive items and nothing else',
+    'Cg.raw_expose_header_exact': 'for an Origin named by allow_origins, outside a successful preflight, Access-Control-Expose-Headers is exactly the ", "-join of the expose_headers iterable (when non-empty)',
+    'Cg.origin_match_is_exact_equality': 'an Origin is allowed (resp. credentialed) iff the allow_origins (resp. allow_credentials) argument is the bare "*", or equals the Origin as a whole string, or is an iterable with an item equal to it (case-sensitive string equality)',
+    'Cg.raw_changed_only_for_allowed_origin': 'if process_response of a successfully constructed middleware changes anything, the request carried an Origin named by the allow_origins argument',
+    'Cg.raw_credentials_only_configured': 'if the middleware adds Access-Control-Allow-Credentials, the Origin is named by BOTH the allow_origins and the allow_credentials argument',
+    'Cg.raw_no_credentials_by_default': 'with allow_credentials=None the middleware never adds Access-Control-Allow-Credentials',
+    'Cg.raw_credentials_imply_echo': 'Co.credentialsF_imply_echo for every successfully constructed middleware',
+    'Cg.raw_wildcard_never_with_credentials': 'Co.wildcard_never_with_credentials for every successfully constructed middleware',
+    'Cg.raw_preflight_approved_iff': 'Access-Control-Allow-Methods appears iff the Origin is named by the allow_origins argument and the exchange is a successful OPTIONS with Access-Control-Request-Method whose response advertises Allow',
+    'Cg.raw_wildcard_only_from_literal': 'if the middleware itself answers Access-Control-Allow-Origin: * (Origin other than "*"), then allow_origins was the bare string "*" and the Origin is not named by allow_credentials',
+    'Cg.cors_enable_adds_exactly_one': 'App(cors_enable=True, middleware=M): either M holds no CORSMiddleware and the stack is M followed by exactly one CORSMiddleware (the last component), or M holds one and the constructor raises',
+    'Cg.no_cors_enable_verbatim': 'without cors_enable the stack is the caller\'s list verbatim and construction never fails on account of CORS components',
+    'Cg.addMiddleware_keeps_one': 'with cors_enable, add_middleware is accepted iff its argument holds no CORSMiddleware; a refused call changes nothing',
+    'Cg.cors_enable_invariant': 'after any sequence of add_middleware calls (accepted or refused) a cors_enable app still has exactly one CORSMiddleware and the earlier stack is a prefix of the new one',
+    'Cg.response_call_of_member': 'a component on the response stack has process_response called with (resource is not None, req_succeeded = nothing raised before the response phase), provided no process_response of a later-registered component raised',
+    'Cg.mem_respOrder_dependent': 'dependent mode: the CORS component is on the response stack iff no process_request of a component registered before it raised',
+    'Cg.cors_response_exactly_once': 'independent mode: the CORS process_response is called exactly once per request, whatever any method does',
+    'Cg.cors_response_dependent_count': 'dependent mode: it is called once, or not at all when an earlier process_request raised',
+    'Cg.cors_enable_process_response': 'for an app built with cors_enable=True over any caller middleware, any routing outcome and responder behaviour: the CORS process_response call (index = number of caller components) is in the call trace with the documented req_succeeded - always in independent mode, in dependent mode unless a caller process_request raised',
+    'Cg.req_succeeded_by_target': 'when no process_request / process_resource raises or completes: resource is set iff a route matched; req_succeeded iff the target is a routed responder or a sink / static route and that responder did not raise (404 / 405: False)',
+    'Cg.req_failed_in_middleware': 'a request rejected by a process_request reaches process_response with resource None and req_succeeded False',
 }
 TRUSTED = [
     'falcon.Response header map (C15) and Request.get_header as the interface between the middleware and the message',
@@ -44,9 +95,16 @@ ASSUMPTIONS = [
     'the request Origin is not the literal string "*" (echoing it would be indistinguishable from the wildcard; browsers never send it)',
     'the wildcard rule speaks about credentials granted by the middleware: a responder that itself pre-sets Access-Control-Allow-Credentials or -Origin is left alone (stated explicitly in DESIGN.md C20)',
     '"withdrawn otherwise" is read as: a successful OPTIONS exchange with Access-Control-Request-Method whose response advertises no Allow (the reading under which F12 was found); a failed exchange keeps the origin grant',
-    'configuration normalisation (str / iterable -> frozenset, expose_headers join) is exercised by the correspondence through real CORSMiddleware objects; the Lean Cfg is the normalised configuration',
+    'constructor arguments are None, a str, or an iterable of str (the documented types); an iterable is modelled by the list of items it yields, frozenset() by a duplicate-free list - every later use is a membership test (Cg.has_frozenset)',
+    'in the wiring model a static route is a sink-shaped target (responder found in _sink_and_static_routes, resource None); other middleware components are modelled by what each of their methods does (return / complete / raise) as in the C03 model Pl.run',
 ]
-RULE = ('(1) unit level: random configurations over the origin universe {http://a, http://b, http://c} (allow_origins: *, str, list/tuple/set/frozenset/generator; allow_credentials: None, *, str, iterables; '
+RULE = ('(0) constructor: allow_origins / expose_headers / allow_credentials drawn independently from None, the bare "*", a single string, and list / tuple / set / frozenset / generator / dict-keys '
+        'of 0-4 strings with repetitions (universe with look-alikes: a prefix pair http://a / http://a.example, case variant, trailing slash, empty string; "*" inserted into 12 % of the iterables): the real '
+        'CORSMiddleware(...) is built and its normalised attributes or its error are compared with Cg.normalise; every accepted object is probed through the real process_response(_async) with the configured '
+        'strings and their proper substrings, superstrings and case variants. (0b) wiring: real falcon.App / falcon.asgi.App(cors_enable on/off, independent on/off, middleware = None / bare component / list / '
+        'tuple / generator of recording components and CORSMiddleware subclass instances) followed by 0-3 add_middleware calls; one clean request gives the stack, one planned request (routed / 405 / sink / static / '
+        'unrouted, responder returning or raising, one process_request raising, preflight or not) gives the process_response calls with their (resource, req_succeeded); the framework-built CORSMiddleware is observed '
+        'through a logging Response type. (1) unit level: random configurations over the origin universe {http://a, http://b, http://c} (allow_origins: *, str, list/tuple/set/frozenset/generator; allow_credentials: None, *, str, iterables; '
         'expose_headers: None, "", str, list) x request views (Origin absent / allowed / disallowed / case variant / empty / look-alike; any method; Access-Control-Request-Method/-Headers absent, empty, set) x '
         'random pre-existing response headers (any subset of the six grant headers, Allow and other headers, random name case) x req_succeeded: the real CORSMiddleware.process_response / '
         'process_response_async is called on real falcon Request/Response objects of both stacks and compared with the model. '
@@ -54,7 +112,10 @@ RULE = ('(1) unit level: random configurations over the origin universe {http://
         'targets: routed resource (auto-OPTIONS / custom on_options with and without Allow), sinks with/without Allow, static route, unrouted; responders that pre-set CORS headers and/or fail '
         '(HTTPError, HTTPError carrying Allow, unhandled exception); each request also runs against a twin app without the CORS middleware; every process_response call observed inside the app is also fed to the model. '
         'non-trivial = request carries an Origin; distinct = distinct (level, stack, configuration, arrangement, request, plan)')
-PARTIAL = ''
+PARTIAL = ('Modelled and proved: process_response (Co), CORSMiddleware.__init__ (Cg.normalise) and the cors_enable wiring of App.__init__ / add_middleware with the CORS component inside the C03 call '
+           'discipline (Cg + Pl.run_eq_spec). Not modelled in Lean: the producers of the Allow header the preflight rule reads (auto-OPTIONS responder - C02 - and StaticRoute; they are exercised by the '
+           'full-stack oracle only); constructor arguments outside the documented types (non-string items, unhashable items); the flag theorem Cg.response_call_of_member assumes that no process_response '
+           'of a later-registered component raised (otherwise req_succeeded is False by then, as Pl.withFlags_flag states).')
 JOBS = {'quick': 4, 'thorough': 16}
 
 NAMED = [('acao', 'Access-Control-Allow-Origin'), ('acac', 'Access-Control-Allow-Credentials'), ('acam', 'Access-Control-Allow-Methods'),
@@ -139,7 +200,8 @@ def describe_cfg(kw):
 
 def gen_origin(rnd):
     return rnd.choice([None, None, None, 'http://a', 'http://a', 'http://a', 'http://a', 'http://b', 'http://b', 'http://b', 'http://c', 'http://c',
-                       'HTTP://A', 'http://A', 'http://a.evil', 'http://a/', '', 'null', 'http://d'])
+                       'HTTP://A', 'http://A', 'http://a.evil', 'http://a/', '', 'null', 'http://d',
+                       'http://', 'ttp://a', 'p://b', 'a'])      # proper substrings of configured origins
 
 
 def cfg_words(norm):
@@ -174,13 +236,421 @@ def model_io(norm, origin, method, acrm, acrh, ok, pre, post):
 
 def run(ctx):
     import os
-    part = os.environ.get('VERIF_C20_PART', 'unit,apps')      # debugging knob: run only one of the two levels
+    part = os.environ.get('VERIF_C20_PART', 'ctor,wire,unit,apps')      # debugging knob: run only some of the levels
+    if 'ctor' in part:
+        _ctor(ctx)
+    if 'wire' in part:
+        _wire(ctx, asgi=False)
+        _wire(ctx, asgi=True)
     if 'unit' in part:
         _unit(ctx, asgi=False)
         _unit(ctx, asgi=True)
     if 'apps' in part:
         _apps(ctx, asgi=False)
         _apps(ctx, asgi=True)
+
+
+# ------------------------------------------------------------------ (0) CORSMiddleware.__init__ = Cg.normalise
+
+CT_UNIVERSE = ['http://a', 'http://b', 'http://a.example', 'https://a', 'HTTP://A', 'http://a/', 'null', 'a', '']
+EX_UNIVERSE = ['X-One', 'X-Two', 'X-Three', 'ETag', '']
+
+
+def enc_arg(kind, val):
+    """constructor argument -> driver syntax: ~ | s<S> | l- | l<S>,<S>,..  (val = the string, or the list of yielded items)"""
+    if kind == 'none':
+        return '~'
+    if kind == 'str':
+        return 's' + S(val)
+    return 'l' + (','.join(S(x) for x in val) or '-')
+
+
+def enc_set_attr(v):
+    """a normalised attribute of the real object -> driver syntax (anything but '*' / a (frozen)set shows up as a mismatch)"""
+    if isinstance(v, str):
+        return '*' if v == '*' else f'NOT-A-SET:str:{v!r}'
+    if isinstance(v, (set, frozenset)):
+        return ','.join(sorted(S(x) for x in v)) or '-'
+    return f'NOT-A-SET:{type(v).__name__}'
+
+
+def gen_ctor_arg(rnd, universe, allow_none, p_none, may_star):
+    """-> (kind, python value to pass, items as the model sees them / the string, JSON description)"""
+    r = rnd.random()
+    if allow_none and r < p_none:
+        return 'none', None, None, None
+    if r < 0.22 and may_star:
+        return 'str', '*', '*', '*'
+    if r < 0.45:
+        s = rnd.choice(universe)
+        return 'str', s, s, s
+    k = rnd.choice([0, 1, 1, 2, 2, 3, 4])
+    items = [rnd.choice(universe) for _ in range(k)]            # repetitions on purpose
+    if may_star and rnd.random() < 0.12:
+        items.insert(rnd.randint(0, len(items)), '*')
+    shape = rnd.choice(['list', 'tuple', 'set', 'frozenset', 'gen', 'dictkeys'])
+    if shape == 'list':
+        obj = list(items)
+    elif shape == 'tuple':
+        obj = tuple(items)
+    elif shape == 'gen':
+        obj = (x for x in list(items))
+    elif shape == 'dictkeys':
+        obj = dict.fromkeys(items).keys()
+        items = list(obj)
+    else:
+        obj = set(items) if shape == 'set' else frozenset(items)
+        items = list(obj)                                       # the order this very object iterates in
+    return 'iter', obj, items, {shape: list(items)}
+
+
+def named_by(kind, val, p):
+    """the documented reading of an argument: the wildcard literal, that very string, or an iterable holding that very string"""
+    if kind == 'none':
+        return False
+    if kind == 'str':
+        return val == '*' or val == p
+    return any(x == p for x in val)
+
+
+def _ctor(ctx):
+    import asyncio
+    import falcon
+    import falcon.asgi
+    import falcon.testing as ft
+    rnd = ctx.rng
+    sess = ctx.session('CORSMiddleware.__init__ (normalised attributes / constructor errors, every argument shape) = Cg.normalise', 'crdriver')
+    loop = asyncio.new_event_loop()
+    try:
+        for ci in range(ctx.n(6000, 40000)):
+            ak, aobj, aitems, adesc = gen_ctor_arg(rnd, CT_UNIVERSE, True, 0.03, True)
+            ek, eobj, eitems, edesc = gen_ctor_arg(rnd, EX_UNIVERSE, True, 0.3, False)
+            ck, cobj, citems, cdesc = gen_ctor_arg(rnd, CT_UNIVERSE, True, 0.2, True)
+            case = {'level': 'constructor', 'allow_origins': adesc, 'expose_headers': edesc, 'allow_credentials': cdesc}
+            sess.case(case)
+            mw = None
+            try:
+                mw = falcon.CORSMiddleware(allow_origins=aobj, expose_headers=eobj, allow_credentials=cobj)
+                got = f'cfg ao={enc_set_attr(mw.allow_origins)} ac={enc_set_attr(mw.allow_credentials)} ex={S(mw.expose_headers)}'
+                outcome = 'accepted'
+            except ValueError as e:
+                m = str(e)
+                outcome = 'wildcard-origins' if 'allow_origins' in m else 'wildcard-credentials' if 'allow_credentials' in m else 'ValueError'
+                got = 'err ' + outcome
+            except TypeError:
+                outcome = 'origins-not-iterable' if ak == 'none' else 'TypeError'
+                got = 'err ' + outcome
+            case['constructor_outcome'] = outcome
+            sess.op(f'norm ao={enc_arg(ak, aitems)} ex={enc_arg(ek, eitems)} ac={enc_arg(ck, citems)}', got)
+            ctx.count('ctor_' + outcome)
+            ctx.count(f'ctor_shapes_ao={ak if ak != "iter" else next(iter(adesc))}')
+            star_inside = (ak == 'iter' and '*' in aitems) or (ck == 'iter' and '*' in citems)
+            # ---- statement, constructor part: the wildcard is a configuration only as a bare string
+            if ak != 'none':
+                ctx.oracle('constructor: "*" inside an allow_origins / allow_credentials iterable is refused (documented ValueError); every other configuration of the documented types is accepted',
+                           (outcome != 'accepted') == star_inside,
+                           None if (outcome != 'accepted') == star_inside else f'"*" inside an iterable: {star_inside}, constructor outcome: {outcome}', case)
+            if mw is not None and not star_inside:
+                # ---- statement, policy part, from the ARGUMENTS: probe the constructed object with look-alike origins
+                base = [x for x in ([aitems] if ak == 'str' else aitems or []) + ([citems] if ck == 'str' else citems or []) if x != '*']
+                probes = set(base)
+                for b in base:
+                    probes.update([b[:-1], b[1:], b + '.evil', b + '/', b.upper(), b.lower(), b[:len(b) // 2]])
+                probes.update(['http://zzz', 'http://a', 'a'])
+                probes.discard('*')
+                for p_ in rnd.sample(sorted(probes), min(len(probes), 6)):
+                    asgi = rnd.random() < 0.5
+                    if asgi:
+                        async def receive():
+                            return {'type': 'http.disconnect'}
+                        req = falcon.asgi.Request(ft.create_scope(method='GET', path='/x', headers={'Origin': p_}), receive)
+                        resp = falcon.asgi.Response()
+                        loop.run_until_complete(mw.process_response_async(req, resp, None, True))
+                    else:
+                        req = falcon.Request(ft.create_environ(method='GET', path='/x', headers={'Origin': p_}))
+                        resp = falcon.Response()
+                        mw.process_response(req, resp, None, True)
+                    acao, acac, aceh = (resp.get_header(n) for n in ('Access-Control-Allow-Origin', 'Access-Control-Allow-Credentials', 'Access-Control-Expose-Headers'))
+                    allowed = named_by(ak, aitems, p_)
+                    cred = allowed and named_by(ck, citems, p_)
+                    why = None
+                    if not allowed:
+                        if (acao, acac, aceh) != (None, None, None):
+                            why = f'Origin {p_!r} is not named by allow_origins but got ACAO={acao!r} ACAC={acac!r} ACEH={aceh!r}'
+                    elif cred:
+                        if acac != 'true' or acao != p_:
+                            why = f'Origin {p_!r} is configured for credentials but got ACAO={acao!r} ACAC={acac!r}'
+                    else:
+                        if acac is not None:
+                            why = f'Origin {p_!r} is not named by allow_credentials but got Access-Control-Allow-Credentials={acac!r}'
+                        elif acao != ('*' if (ak == 'str' and aitems == '*') else p_):
+                            why = f'allowed Origin {p_!r} got Access-Control-Allow-Origin={acao!r}'
+                    if why is None and allowed:
+                        want = None if ek == 'none' else eitems if ek == 'str' else ', '.join(eitems)
+                        if (aceh or None) != (want or None):
+                            why = f'Access-Control-Expose-Headers={aceh!r}, configured {want!r}'
+                    pc = dict(case, probe_origin=p_, stack='asgi' if asgi else 'wsgi')
+                    ctx.oracle('constructed middleware: an Origin is granted iff it is literally named by allow_origins (whole string, case-sensitive), credentials iff also named by allow_credentials, expose_headers joined with ", "',
+                               why is None, why, pc)
+                    ctx.count('ctor_probe_' + ('credentialed' if cred else 'allowed' if allowed else 'refused'))
+            ctx.seen(('ctor', ak, str(aitems), ek, str(eitems), ck, str(citems), str(adesc), str(cdesc)), outcome == 'accepted' or star_inside)
+    finally:
+        loop.close()
+    sess.finish()
+
+
+# ------------------------------------------------------------------ (0b) cors_enable wiring = Cg.appInit / Cg.runAdds, and Pl.run on that stack
+
+def _http_call(asgi, loop, app, method, path, hdrs):
+    """one request against a real app -> (status, {lower name: value}, body)"""
+    import asyncio
+    from runner import alarm
+    import falcon.testing as ft
+    if not asgi:
+        env = ft.create_environ(method=method, path=path, headers=hdrs)
+        st = []
+        with alarm(30):
+            it = app(env, lambda s, h, e=None: st.append((s, h)))
+            try:
+                body = b''.join(it)
+            finally:
+                if hasattr(it, 'close'):
+                    it.close()
+        hd = {}
+        for k, v in st[0][1]:
+            hd[k.lower()] = (hd[k.lower()] + ', ' + v) if k.lower() in hd else v
+        return int(st[0][0].split()[0]), hd, body
+    scope = ft.create_scope(method=method, path=path, headers=hdrs)
+    events = [{'type': 'http.request', 'body': b'', 'more_body': False}, {'type': 'http.disconnect'}]
+    sent = []
+
+    async def go():
+        never = asyncio.get_running_loop().create_future()
+
+        async def receive():
+            if events:
+                return events.pop(0)
+            await never
+
+        async def send(e):
+            sent.append(e)
+        await app(scope, receive, send)
+    loop.run_until_complete(asyncio.wait_for(go(), 30))
+    start = next(e for e in sent if e['type'] == 'http.response.start')
+    hd = {}
+    for k, v in start['headers']:
+        k = k.decode('latin-1').lower()
+        v = v.decode('latin-1')
+        hd[k] = (hd[k] + ', ' + v) if k in hd else v
+    return start['status'], hd, b''.join(e.get('body', b'') for e in sent if e['type'] == 'http.response.body')
+
+
+def _wire(ctx, asgi):
+    import asyncio
+    import os
+    import shutil
+    import tempfile
+    from runner import Hang
+    import falcon
+    import falcon.asgi
+    rnd = ctx.rng
+    stack = 'asgi' if asgi else 'wsgi'
+    sess = ctx.session(f'{stack} App(cors_enable, middleware) / add_middleware: accepted or refused, resulting stack, and the process_response calls (resource, req_succeeded) of one request = Cg.appInit / Cg.runAdds / Pl.run', 'crdriver')
+    loop = asyncio.new_event_loop() if asgi else None
+    root = tempfile.mkdtemp(prefix='c20wire_')
+    with open(os.path.join(root, 'f.txt'), 'w') as f:
+        f.write('static file')
+    PLAN = {'fail': None, 'resp': 'ret'}
+    LOG = []
+    BUILTIN = [False]       # the app under test was built with cors_enable: the only CORSMiddleware in it is the framework's own
+
+    class LogMixin:
+        """The framework's own CORSMiddleware cannot be wrapped without touching the code under test; it is observed at the
+        Response interface: it alone sets Access-Control-Allow-Origin, and deletes Allow exactly when it takes the preflight branch."""
+        def set_header(self, name, value):
+            if BUILTIN[0] and name.lower() == 'access-control-allow-origin':
+                LOG.append(['C', None, False])
+            super().set_header(name, value)
+
+        def delete_header(self, name):
+            if BUILTIN[0] and name.lower() == 'allow' and LOG and LOG[-1][0] == 'C':
+                LOG[-1][2] = True
+            super().delete_header(name)
+
+    class UserCORS(falcon.CORSMiddleware):
+        def process_response(self, req, resp, resource, req_succeeded):
+            LOG.append(['u', resource is not None, req_succeeded])
+            super().process_response(req, resp, resource, req_succeeded)
+
+    def behave(req, resp):
+        resp.set_header('Allow', 'GET')
+        if PLAN['resp'] == 'raise':
+            raise falcon.HTTPBadRequest()
+        resp.text = 'ok'
+
+    if asgi:
+        class LogResp(LogMixin, falcon.asgi.Response):
+            pass
+
+        class Res:
+            async def on_get(self, req, resp):
+                behave(req, resp)
+            on_options = on_get
+
+        async def sink(req, resp, **kw):
+            behave(req, resp)
+
+        class Other:
+            def __init__(self, n):
+                self.n = n
+
+            async def process_request(self, req, resp):
+                if PLAN['fail'] == self.n:
+                    raise falcon.HTTPForbidden()
+
+            async def process_response(self, req, resp, resource, ok):
+                LOG.append([f'o{self.n}', resource is not None, ok])
+        AppT = falcon.asgi.App
+    else:
+        class LogResp(LogMixin, falcon.Response):
+            pass
+
+        class Res:
+            def on_get(self, req, resp):
+                behave(req, resp)
+            on_options = on_get
+
+        def sink(req, resp, **kw):
+            behave(req, resp)
+
+        class Other:
+            def __init__(self, n):
+                self.n = n
+
+            def process_request(self, req, resp):
+                if PLAN['fail'] == self.n:
+                    raise falcon.HTTPForbidden()
+
+            def process_response(self, req, resp, resource, ok):
+                LOG.append([f'o{self.n}', resource is not None, ok])
+        AppT = falcon.App
+
+    counter = [0]
+
+    def gen_mwarg(p_user):
+        """-> (driver syntax, description, factory of the python object)"""
+        def comp():
+            if rnd.random() < p_user:
+                return 'u'
+            counter[0] += 1
+            return f'o{counter[0]}'
+        r = rnd.random()
+        if r < 0.15:
+            return '~', None, lambda: None
+        if r < 0.35:
+            k = comp()
+            return 's' + k, {'bare component': k}, lambda: mk(k)
+        ks = [comp() for _ in range(rnd.choice([0, 1, 1, 2, 2, 3]))]
+        shape = rnd.choice(['list', 'tuple', 'gen'])
+        return 'l' + (','.join(ks) or '-'), {shape: ks}, lambda: {'list': list, 'tuple': tuple, 'gen': lambda v: (x for x in v)}[shape]([mk(k) for k in ks])
+
+    def mk(k):
+        return UserCORS() if k == 'u' else Other(int(k[1:]))
+
+    def render(log, pf):
+        return ','.join(f'C:?:{(1 if e[2] else 0) if pf else "?"}' if e[0] == 'C' else f'{e[0]}:{1 if e[1] else 0}:{1 if e[2] else 0}' for e in log) or '-'
+
+    try:
+        for ai in range(ctx.n(1200, 8000)):
+            ce = rnd.random() < 0.65
+            indep = rnd.random() < 0.55
+            counter[0] = 0
+            p_user = rnd.choice([0.0, 0.0, 0.15, 0.3])
+            a_enc, a_desc, a_make = gen_mwarg(p_user)
+            adds = [gen_mwarg(rnd.choice([0.0, 0.3])) for _ in range(rnd.choice([0, 0, 1, 2, 3]))]
+            kind = rnd.choice(['route', 'route', 'nomethod', 'sink', 'static', 'nothing'])
+            resp_act = rnd.choice(['ret', 'ret', 'raise'])
+            pf = kind != 'nomethod' and rnd.random() < 0.6
+            if kind == 'static' and pf:
+                resp_act = 'ret'            # the static route answers OPTIONS (Allow: GET) without looking at the file, so it cannot fail
+            fail = rnd.choice([None, None] + list(range(1, counter[0] + 1))) if counter[0] else None
+            method = 'OPTIONS' if pf else 'DELETE' if kind == 'nomethod' else 'GET'
+            path = {'route': '/r', 'nomethod': '/r', 'sink': '/sink/x', 'static': '/static/f.txt' if resp_act == 'ret' else '/static/missing', 'nothing': '/none'}[kind]
+            hdrs = {'Origin': 'http://a'}
+            if pf:
+                hdrs['Access-Control-Request-Method'] = 'GET'
+            case = {'level': 'wiring', 'stack': stack, 'cors_enable': ce, 'independent_middleware': indep, 'middleware': a_desc,
+                    'add_middleware_calls': [d for _, d, _ in adds], 'request': {'method': method, 'path': path, 'headers': hdrs},
+                    'target': kind, 'responder': resp_act, 'process_request_raising_in': None if fail is None else f'o{fail}'}
+            line = (f"stack ce={1 if ce else 0} indep={1 if indep else 0} arg={a_enc} adds={'/'.join(e for e, _, _ in adds) or '-'} "
+                    f"target={'sink' if kind == 'static' else kind} resp={resp_act} fail={'-' if fail is None else fail} pf={1 if pf else 0}")
+            sess.case(case)
+            user_in_arg = 'u' in a_enc
+            why = None
+            app = None
+            try:
+                app = AppT(middleware=a_make(), independent_middleware=indep, cors_enable=ce, response_type=LogResp)
+            except ValueError:
+                got = 'init=err'
+            if (app is None) != (ce and user_in_arg):
+                why = f'cors_enable={ce}, caller passed a CORSMiddleware: {user_in_arg}, but the constructor ' + ('raised ValueError' if app is None else 'accepted it')
+            if app is not None:
+                oks = []
+                for e, d, make in adds:
+                    try:
+                        app.add_middleware(make())
+                        oks.append(1)
+                    except ValueError:
+                        oks.append(0)
+                    if why is None and (oks[-1] == 0) != (ce and 'u' in e):
+                        why = f'cors_enable={ce}: add_middleware({d}) was ' + ('accepted' if oks[-1] else 'refused')
+                app.add_route('/r', Res())
+                app.add_sink(sink, '/sink')
+                app.add_static_route('/static', root)
+                BUILTIN[0] = ce
+                try:
+                    # request 1, nothing fails: the response stack bottom-up, i.e. the middleware stack in reverse
+                    PLAN.update(fail=None, resp='ret')
+                    del LOG[:]
+                    _http_call(asgi, loop, app, 'OPTIONS', '/r', {'Origin': 'http://a', 'Access-Control-Request-Method': 'GET'})
+                    stack_seen = [e[0] for e in reversed(LOG)]
+                    n_c1 = sum(1 for e in LOG if e[0] == 'C')
+                    # request 2: the planned one
+                    PLAN.update(fail=fail, resp=resp_act)
+                    del LOG[:]
+                    st2, hd2, _ = _http_call(asgi, loop, app, method, path, hdrs)
+                    calls = [list(e) for e in LOG]
+                    got = f"init=ok adds={''.join(map(str, oks)) or '-'} stack={','.join(stack_seen) or '-'} calls={render(calls, pf)}"
+                    case['observed'] = {'stack': stack_seen, 'process_response_calls': calls, 'status': st2,
+                                        'access-control-allow-origin': hd2.get('access-control-allow-origin')}
+                    if ce and why is None:
+                        n_c2 = sum(1 for e in calls if e[0] == 'C')
+                        # dependent mode skips the CORS component only when a component of the constructor's list rejected the request
+                        # (those are the ones registered before it); components added later cannot keep it from running
+                        before = [int(k[1:]) for k in ([a_enc[1:]] if a_enc[0] == 's' else a_enc[1:].split(',')) if k.startswith('o')]
+                        expect = 0 if (not indep and fail in before) else 1
+                        if n_c1 != 1 or n_c2 != expect:
+                            why = f'cors_enable app: the CORS policy ran {n_c1} time(s) in a clean request and {n_c2} time(s) in the planned one, expected 1 and {expect}'
+                        elif expect and pf and calls and [e for e in calls if e[0] == 'C'][0][2] != (st2 < 400):
+                            why = f'cors_enable app: preflight patching ran = {[e for e in calls if e[0] == "C"][0][2]} but the exchange ended with status {st2}'
+                except Hang:
+                    got = 'hang'
+                    why = why or 'request did not return (hang)'
+                except (asyncio.TimeoutError, TimeoutError):
+                    got = 'timeout'
+                    why = why or 'request did not return (timeout)'
+                finally:
+                    BUILTIN[0] = False
+            sess.op(line, got)
+            ctx.oracle('cors_enable wiring: a CORSMiddleware next to cors_enable is refused (constructor and add_middleware), otherwise exactly one CORS policy runs per request - once, with req_succeeded = the exchange succeeded - for routed / sink / static / unrouted / failed requests; skipped only in dependent mode behind a rejecting process_request',
+                       why is None, why, case)
+            ctx.seen(('wire', stack, line), app is not None or (ce and user_in_arg))
+            ctx.count(f'wire_{stack}_' + ('refused' if app is None else f'ce={int(ce)}_{kind}_{resp_act if kind not in ("nomethod", "nothing") else "-"}'))
+    finally:
+        if loop is not None:
+            loop.close()
+        shutil.rmtree(root, ignore_errors=True)
+    sess.finish()
 
 
 # ------------------------------------------------------------------ (1) process_response on real Request/Response objects
@@ -568,7 +1038,11 @@ def _apps(ctx, asgi):
     sess.finish()
 
 
-LEVEL_TEXT = ('Machine-checked proofs (Lean 4) about Co.processF, a transcription of CORSMiddleware.process_response (with the F12 repair) onto a header map: for every configuration, request view, '
+LEVEL_TEXT = ('Machine-checked proofs (Lean 4). (a) Cg.normalise, a transcription of CORSMiddleware.__init__: a single string is exactly the one-element iterable (membership is whole-string equality), the '
+              'outcome depends only on the SET of configured strings, "*" inside an iterable is refused, expose_headers is the ", "-join; the policy theorems are restated from the raw constructor arguments. '
+              '(b) Cg.appInit / addMiddleware, a transcription of the cors_enable wiring: exactly one CORSMiddleware, last in the stack, under every sequence of add_middleware calls; a CORSMiddleware next to '
+              'cors_enable is refused; inside the proved call discipline of App.__call__ its process_response runs exactly once (dependent mode: iff no earlier process_request raised) with the documented req_succeeded. '
+              '(c) Co.processF, a transcription of CORSMiddleware.process_response (with the F12 repair) onto a header map: for every configuration, request view, '
               'pre-existing header map and outcome - no Origin / disallowed Origin leaves everything untouched; any change implies an allowed Origin; credentials only for configured origins, always with the '
               'echoed origin and never with the wildcard; a preflight is approved iff allowed origin, successful OPTIONS, Access-Control-Request-Method and an advertised Allow, with exact methods/headers/max-age '
               'and Allow removed; a denied preflight leaves none of the six grant headers; other headers are never touched. The model is tied to falcon/middleware.py on every run by calling the real '
@@ -576,4 +1050,4 @@ LEVEL_TEXT = ('Machine-checked proofs (Lean 4) about Co.processF, a transcriptio
               'compiled model; an independent oracle compares every final response with a twin app lacking the middleware and applies the statement\'s rules.')
 LEVEL_NOTE = ('Trusted: Lean kernel + standard axioms; the Response header map (C15); correspondence harness, twin-app oracle. The wildcard rule is about grants of the middleware (responder-preset '
               'Access-Control-Allow-Credentials is left alone); Origin "*" is excluded.')
-TECHNIQUE = 'Lean 4 proofs on a header-map model of process_response + differential correspondence (unit calls and calls observed inside real WSGI/ASGI apps) + twin-app statement oracle'
+TECHNIQUE = 'Lean 4 proofs on models of CORSMiddleware.__init__, the cors_enable wiring and process_response (header map) + differential correspondence (unit calls and calls observed inside real WSGI/ASGI apps) + twin-app statement oracle'
